@@ -377,21 +377,21 @@ func (c *checkCtx) report(wall time.Duration) int {
 		"wall_s":      round3(wall.Seconds()),
 		"violations":  violations,
 		"coverage": map[string]interface{}{
-			"obligations":          total - nKnown,
-			"discharged":           discharged,
-			"known_findings":       nKnown,
-			"checker_cmd":          fmt.Sprintf("/verif/bin/gowp check %s --tier %s", id, c.tier),
-			"trusted_base":         tb,
-			"discharged_by":        by,
-			"obligations_by_kind":  byKind,
-			"solver_secs":          round3(solverSecs),
-			"load_secs":            round3(c.prog.LoadSecs),
-			"functions":            funcs,
-			"slowest":              slow,
-			"samples":              samples,
-			"bounded_stand_ins":    c.bounded,
-			"not_covered":          c.prop.NotCovered,
-			"explanation":          "every obligation is generated from the go/ssa form of /repo's current working tree and the //@ contracts in the zz_verif_contracts.go side-car files; discharged = proved valid (unsat negation) by the named back end",
+			"obligations":            total - nKnown,
+			"discharged":             discharged,
+			"known_findings":         nKnown,
+			"checker_cmd":            fmt.Sprintf("/verif/bin/gowp check %s --tier %s", id, c.tier),
+			"trusted_base":           tb,
+			"discharged_by":          by,
+			"obligations_by_kind":    byKind,
+			"solver_secs":            round3(solverSecs),
+			"load_secs":              round3(c.prog.LoadSecs),
+			"functions":              funcs,
+			"slowest":                slow,
+			"samples":                samples,
+			"bounded_stand_ins":      c.bounded,
+			"not_covered":            c.prop.NotCovered,
+			"explanation":            "every obligation is generated from the go/ssa form of /repo's current working tree and the //@ contracts in the zz_verif_contracts.go side-car files; discharged = proved valid (unsat negation) by the named back end",
 			"undischarged_or_failed": total - nKnown - discharged,
 		},
 		"assumptions": tb,
